@@ -21,10 +21,30 @@ PY = '/venv/bin/python'
 
 
 def write_file(tmp, name, data, gz):
+    """gz: 0 = plain, 1 = gzip, >= 2 = gzip file with that many members"""
+    from ..world import gzip_bytes
     p = os.path.join(tmp, name)
     with open(p, 'wb') as f:
-        f.write(gzip.compress(data) if gz else data)
+        f.write(gzip_bytes(data, int(gz)) if gz else data)
     return p
+
+
+def failing_read(tmp):
+    """a read that fails part-way through a file (truncated gzip of a many-contig FASTA): the error is swallowed by the
+    caller, as an interactive user or a long-running service would; later signatures must not be affected by it"""
+    import random
+    rng = random.Random(5)
+    data = ''.join(f'>c{i}\nAT{"".join(rng.choice("ACGT") for _ in range(300))}\n' for i in range(60)).encode()
+    p = os.path.join(tmp, 'truncated.fa.gz')
+    if not os.path.exists(p):
+        blob = gzip.compress(data)
+        with open(p, 'wb') as f:
+            f.write(blob[:len(blob) * 2 // 3])
+    try:
+        calc_file_signature(KS, SequenceFile(p, 'fasta', 'auto'))
+        return False
+    except Exception:
+        return True
 
 
 def real_sig(path, k=5):
@@ -71,7 +91,9 @@ def run(ctx):
         cli_jobs = []
         for i, sc in enumerate(scens):
             data = bytes(sc['bytes'])
-            gz = i % 2 == 1
+            gz = [0, 1, 0, 2, 0, 3][i % 6]
+            if i % 40 == 7:
+                failing_read(tmp)          # an unrelated, failing read just before this one
             ext = EXTS[i % len(EXTS)]                  # compression never follows the name
             path = write_file(tmp, f's{i}{ext}', data, gz)
             try:
@@ -88,7 +110,7 @@ def run(ctx):
                 bad += 1
                 ctx.report('renderings', dict(genome=sc['genome'], rendering=sc['rendering'], gzip=gz, ext=ext, bytes=sc['bytes']),
                            dict(expected=sc['sig'], observed=got, dtype=dt, err=err), ['signature-differs-from-union-of-contig-signatures'],
-                           key=f'render:g{sc["genome"]}:{"gz" if gz else "plain"}:{sc["rendering"]["case"]}:{"crlf" if sc["rendering"]["crlf"] else "lf"}:w{sc["rendering"]["width"]}',
+                           key=f'render:g{sc["genome"]}:{"gz%d" % gz if gz else "plain"}:{sc["rendering"]["case"]}:{"crlf" if sc["rendering"]["crlf"] else "lf"}:w{sc["rendering"]["width"]}',
                            describe=f'{data[:80]!r} gzip={gz} ext={ext!r} expected {len(sc["sig"])} k-mers, got {None if got is None else len(got)} {err}')
             if i % (len(scens) // 12 + 1) == 0:
                 cli_jobs.append((i, path, sc))
@@ -128,7 +150,7 @@ def run(ctx):
             union = calc_signature(DEFAULT_KMERSPEC, seqs)
             for rep in range(3 if ctx.tier == 'quick' else 6):
                 data = rerender(seqs, rng)
-                gz = rng.random() < 0.5
+                gz = rng.choice([0, 1, 2])
                 p2 = write_file(tmp, f'real{nre}{rng.choice(EXTS)}', data, gz)
                 got = calc_file_signature(DEFAULT_KMERSPEC, SequenceFile(p2, 'fasta', 'auto'))
                 os.remove(p2)
@@ -141,7 +163,7 @@ def run(ctx):
                                ['signature-changed-under-re-rendering'], key=f'real:{os.path.basename(gpath)}')
         ctx.families.append(dict(name='real-genomes-rerendered', records=nre))
         ctx.rule_parts.append('[renderings] every rendering (contig order x per-contig orientation x case x line width x LF/CRLF x final newline) of '
-                              '3 conformance genomes generated by TLC as file bytes with the required signature; gzip and 6 file extensions '
+                              '3 conformance genomes generated by TLC as file bytes with the required signature; gzip (1-3 members) and 6 file extensions '
                               'cycled independently; run through calc_file_signature (all) and `gambit signatures create` (sample); '
                               '[real-genomes-rerendered] bundled test genomes re-rendered at random; non-trivial = non-empty signature')
         ctx.exhaustive_all = ctx.tier == 'thorough'
